@@ -20,6 +20,14 @@ RULE = ("case = scope program as in C06 (incl. disposables with gated / raising 
         "async scope (body or exit wait), or a check_cancellation runs after a request; distinct = by case text")
 
 
+def extra_obligations():
+    """TaskGroupContext.__aenter__/__aexit__ regenerated from /repo's tasks.py: the variable is reset before the wait, a
+    CancelledError out of the group's exit wait propagates as that object, everything else is silenced"""
+    from harness import core, regen
+
+    return [e for e in regen.check("contexts", core.REPO, core.LEAN) if ".group_" in e["name"]]
+
+
 def corpus():
     out = []
     for prog in gc.DIRECTED:
